@@ -18,6 +18,8 @@ CHECKS = {
  "C09": "Step VCs over cw4-group UpdateMembers and cw4-stake Bond/Unbond with cw-storage-plus SnapshotMap/SnapshotItem interpreted from their own MIR: for a symbolic query height h, block height H and arbitrary earlier changelog, one call leaves every at-height answer for h <= H unchanged and makes every answer for h > H the new current value (members and, for cw4-group, total); instantiate base case; TOTAL = sum of members; raw keys published by cw4 evaluated from MIR against the storage layout.",
  "C10": "Inductive VCs over cw4-stake Bond/Receive/Unbond/Claim (cw-controllers Claims and cw-utils Duration/Expiration from their MIR): only the configured token is accepted, stake changes only for the staker by exactly the amount, one claim per unbond released exactly one period later, Claim pays exactly the matured claims once, ghost holdings >= stakes + claims, member iff stake >= min_bond with weight = exact integer quotient (non-linear, z3).",
  "C14": "Step VCs for every execute variant of cw4-group and cw4-stake (cw-controllers Admin/Hooks from their MIR): state changes only by the stored admin (or the staker's own bond/unbond), one MemberChangedHook per registered hook in order with identical diffs, and a replay oracle: applying the reported diffs in order to the pre-state membership reproduces each reported old weight and the final membership.",
+ "C03": "Step VCs over Propose/Vote/Execute/Close of both multisigs (cw3 current_status/update_status and Votes::add_vote from MIR): recorded tally = sum of recorded ballots, every stored Passed/Rejected status is one the threshold kernel derives from that tally, Execute/Close are admitted exactly on the derived status, queries report current_status of the stored proposal. The kernel's arithmetic meaning is C04's; here it is an uninterpreted function constrained by the facts C04 proves.",
+ "C05": "Step VCs for every execute variant of both multisigs plus a time-passage VC: messages are dispatched only by Execute on a derived-Passed proposal (authorised caller for flex), exactly as proposed with no reply, status recorded Executed so a repeated/re-entrant Execute fails; Close only when expired and not passed and relays nothing; stored and observed status only move forward; ids = counter + 1; content fixed at creation; expiry <= max voting period.",
 }
 PENDING = {}
 ALL = [f"C{i:02d}" for i in range(1, 21)]
